@@ -18,14 +18,15 @@ import bibtexparser
 from bibtexparser import model as M
 from bibtexparser.splitter import Splitter
 from bibtexparser.middlewares.enclosing import RemoveEnclosingMiddleware
+from bibtexparser.middlewares.interpolate import ResolveStringReferencesMiddleware
 
 KS = "aAb-"
 SVALS = ["{v1}", "\"v2\" # x", "w3"]
 SHAPES = ("bare", "braced", "quoted", "concat", "number")
 
 
-def drv(text, snames, fields):
-    lib = bibtexparser.parse_string(text)
+def drv(text, snames, fields, stack=None):
+    lib = bibtexparser.parse_string(text) if stack is None else bibtexparser.parse_string(text, parse_stack=stack)
     lib0 = RemoveEnclosingMiddleware(True).transform(Splitter(text).split())
     # oracle: which field resolves to which string (first definition wins)
     exp = []
@@ -48,6 +49,13 @@ def drv_two(text1, text2, snames, fields):
     """two documents parsed one after the other in the same process: the second must be resolved on its own"""
     bibtexparser.parse_string(text1)
     return drv(text2, snames, fields)
+
+
+def drv_two_reuse(text1, text2, snames, fields):
+    """the SAME middleware instances (the default stack's classes, built once by the caller) used for two documents"""
+    stack = [ResolveStringReferencesMiddleware(True), RemoveEnclosingMiddleware(True)]
+    bibtexparser.parse_string(text1, parse_stack=stack)
+    return drv(text2, snames, fields, stack)
 
 
 NL = ["\n"]      # line ending used by build(); tasks may switch it to CRLF
@@ -157,15 +165,15 @@ def first_of_lookup(lib, order, sidx):
     return b, b
 
 
-def native(text, snames, fields, own, order):
+def native(text, snames, fields, own, order, reuse_after=None):
     import logging
     logging.disable(logging.CRITICAL)
-    lib, lib0, exp = drv(text, snames, fields)
+    lib, lib0, exp = drv(text, snames, fields) if reuse_after is None else drv_two_reuse(reuse_after, text, snames, fields)
     conds = verdict(lib, lib0, exp, snames, fields, own, order, lambda a, b: a == b)
     return all(bool(c) for c in conds), exp, [(f.key, f.value) for b in lib.blocks if isinstance(b, M.Entry) for f in b.fields]
 
 
-def task(n_before, n_after, shapes, kl, label, second=None, earlier=None, crlf=False, hw=""):
+def task(n_before, n_after, shapes, kl, label, second=None, earlier=None, crlf=False, hw="", reuse=False):
     NL[0] = "\r\n" if crlf else "\n"
     HW[0] = hw
     eng = Engine()
@@ -175,17 +183,18 @@ def task(n_before, n_after, shapes, kl, label, second=None, earlier=None, crlf=F
         text0 = build(eng, earlier[0], earlier[1], ("bare",), 1, None, pfx="p")[0]
     text, snames, fields, own, order = build(eng, n_before, n_after, shapes, kl, second)
     E = eng.I.models.eq_simple
-    worlds = eng.run(drv, [text, snames, fields]) if text0 is None else eng.run(drv_two, [text0, text, snames, fields])
+    worlds = eng.run(drv, [text, snames, fields]) if text0 is None else eng.run(drv_two_reuse if reuse else drv_two, [text0, text, snames, fields])
 
     def rp(m):
         mv = lambda x: eng.model_value(m, x)
         t = eng.model_str(m, text)
         try:
-            if text0 is not None:
+            if text0 is not None and not reuse:
                 import logging
                 logging.disable(logging.CRITICAL)
                 bibtexparser.parse_string(eng.model_str(m, text0))
-            ok, exp, got = native(t, mv(snames), [[tuple(mv(list(f))) for f in ef] for ef in fields], mv(own), order)
+            ok, exp, got = native(t, mv(snames), [[tuple(mv(list(f))) for f in ef] for ef in fields], mv(own), order,
+                                  eng.model_str(m, text0) if reuse else None)
         except Exception as e:  # noqa
             return {"input": t, "observed": f"raised {type(e).__name__}: {e}", "expected": "library"}
         if ok:
@@ -244,6 +253,11 @@ def main():
         for enb, ena in ((1, 0), (0, 1)):
             name = f"after-b{enb}a{ena}-then-b{nb}a{na}"
             chk.add_task(name, task, n_before=nb, n_after=na, shapes=("bare",), kl=1, label=name, earlier=(enb, ena))
+    # ... and with the very same middleware instances used for both documents
+    for nb, na in ((1, 0), (0, 1), (0, 0), (2, 0)):
+        for enb, ena in ((1, 0), (0, 1), (2, 0)):
+            name = f"reuse-b{enb}a{ena}-then-b{nb}a{na}"
+            chk.add_task(name, task, n_before=nb, n_after=na, shapes=("bare",), kl=1, label=name, earlier=(enb, ena), reuse=True)
     # two entries: the recorded resolved keys are per entry
     for nb, na in ((1, 0), (0, 1), (2, 0)):
         for shapes in (("bare",), ("bare", "bare"), ("braced",)):
